@@ -191,24 +191,37 @@ def check(ctx):
             Q = projector_onto_admissible(P.N, m, G)
             if Q.shape[1] == 0:
                 continue
-            c = rng.normal(size=Q.shape[1])
-            truth = {m: (Q @ c).reshape((P.N,) * m + (3,) * m)}
-            n = 3 * int(np.ceil(Q.shape[1] / (3 * P.N))) + 6
-            d = rng.normal(size=(n, P.N, 3)) * 0.1
-            f = forces_from_fc(truth, d)
-            ctx.case({"cell": sc["name"], "independent_truth_order": m, "admissible_dim": int(Q.shape[1]), "basis_dim": int(P.nb[m])}, nontrivial=True)
-            ctx.count("recovery-independent-truth")
-            key = "C05/order4/pattern-aabb" if m == 4 else f"C05/oracle/recovery-independent/order{m}"
-            try:
-                o = P.new(d, f)
-                o.solve(orders=[m], is_compact_fc=False)
-                got = o.force_constants[m]
-                err = float(np.abs(got - truth[m]).max() / max(np.abs(truth[m]).max(), 1e-300))
-            except Exception as e:  # noqa: BLE001
-                err = float("inf")
-            if not err <= 1e-6:
-                ctx.fail("oracle", key, f"{sc['name']}: admissible fc{m} drawn from the independent reference space (dimension {Q.shape[1]}, basis has {P.nb[m]}) is not recovered from exact forces (relative error {err:.2e})",
-                         replay={**P.describe(), "order": m, "truth": "random vector of the reference admissible space", "rel_err": err}, has_input=True)
+            # order 4: the arrangement tables lack the pattern (ia,ia,jb,jb) (known finding C04/order4/pattern-aabb).  A truth drawn
+            # from the reference space WITH those elements forced to zero must be recovered exactly (normal key); a truth with a
+            # non-zero component there is the known consequence -- reported under the known key only when that is the diagnosed cause
+            spaces = [("reference admissible space", Q, f"C05/oracle/recovery-independent/order{m}")]
+            if m == 4:
+                Q22 = projector_onto_admissible(P.N, m, G, drop_pattern_22=True)
+                spaces = [("reference admissible space with the (ia,ia,jb,jb) elements zero", Q22, "C05/oracle/recovery-independent/order4")]
+                if Q.shape[1] > Q22.shape[1] and P.nb[m] == Q22.shape[1]:
+                    spaces.append(("reference admissible space", Q, "C05/order4/pattern-aabb"))
+                elif Q.shape[1] > Q22.shape[1]:
+                    spaces.append(("reference admissible space", Q, "C05/oracle/recovery-independent/order4"))
+            for sname, Qs, key in spaces:
+                if Qs.shape[1] == 0:
+                    continue
+                c = rng.normal(size=Qs.shape[1])
+                truth = {m: (Qs @ c).reshape((P.N,) * m + (3,) * m)}
+                n = 3 * int(np.ceil(Qs.shape[1] / (3 * P.N))) + 6
+                d = rng.normal(size=(n, P.N, 3)) * 0.1
+                f = forces_from_fc(truth, d)
+                ctx.case({"cell": sc["name"], "independent_truth_order": m, "space": sname, "admissible_dim": int(Qs.shape[1]), "basis_dim": int(P.nb[m])}, nontrivial=True)
+                ctx.count("recovery-independent-truth")
+                try:
+                    o = P.new(d, f)
+                    o.solve(orders=[m], is_compact_fc=False)
+                    got = o.force_constants[m]
+                    err = float(np.abs(got - truth[m]).max() / max(np.abs(truth[m]).max(), 1e-300))
+                except (np.linalg.LinAlgError, ValueError, IndexError, RuntimeError):
+                    err = float("inf")
+                if not err <= 1e-6:
+                    ctx.fail("oracle", key, f"{sc['name']}: admissible fc{m} drawn from the independent {sname} (dimension {Qs.shape[1]}, basis has {P.nb[m]}) is not recovered from exact forces (relative error {err:.2e})",
+                             replay={**P.describe(), "order": m, "truth": "random vector of the " + sname, "rel_err": err}, has_input=True)
 
 
 def facade_cutoff_recovery(ctx, rng):
